@@ -533,3 +533,38 @@ func (l *Ledger) Audit(rm string, final bool, u Usage, gor int) {
 	}
 	l.T.Emit("audit", kv...)
 }
+
+// ---------------------------------------------------------------------------------------------
+// MuxSpy decorates the muxer handed to the real upgrader: it remembers for which raw connection
+// (by local port) the muxer session was created, i.e. which attempts completed their upgrade.
+
+type MuxSpy struct {
+	network.Multiplexer
+	mu    sync.Mutex
+	ports map[int]bool
+}
+
+func (m *MuxSpy) NewConn(c net.Conn, server bool, scope network.PeerScope) (network.MuxedConn, error) {
+	mc, err := m.Multiplexer.NewConn(c, server, scope)
+	if err == nil {
+		if a, ok := c.LocalAddr().(*net.TCPAddr); ok {
+			m.mu.Lock()
+			if m.ports == nil {
+				m.ports = map[int]bool{}
+			}
+			m.ports[a.Port] = true
+			m.mu.Unlock()
+		}
+	}
+	return mc, err
+}
+
+// Stage returns "muxed" when the upgrade of the raw connection with that local port completed.
+func (m *MuxSpy) Stage(e *End) string {
+	m.mu.Lock()
+	defer m.mu.Unlock()
+	if e != nil && m.ports[e.laddr.Port] {
+		return "muxed"
+	}
+	return ""
+}
